@@ -113,9 +113,9 @@ for _pid, _names in NONVACUITY.items():
 STREAMS = {
     "C02": [("shocked", 14, 200), ("shortage", 10, 150), ("multi", 8, 100), ("mild", 6, 80), ("crash", 4, 60), ("earlydt", 8, 80), ("large", 2, 12)],
     "C19": [("early", 16, 160), ("multi", 8, 80), ("negfd", 6, 40), ("earlydt", 8, 80)],
-    "C09": [("recover", 36, 400), ("multi", 8, 100), ("earlydt", 8, 80)],
-    "C10": [("multi", 20, 200), ("recover", 10, 100), ("rebuild", 10, 100), ("earlydt", 8, 80)],
-    "C11": [("multi", 26, 300), ("rebuild", 8, 100), ("finishing", 8, 80), ("large", 2, 12)],
+    "C09": [("recover", 32, 400), ("multi", 8, 100), ("earlydt", 8, 80), ("handover", 6, 60)],
+    "C10": [("multi", 18, 200), ("recover", 10, 100), ("rebuild", 10, 100), ("earlydt", 8, 80), ("handover", 6, 60)],
+    "C11": [("multi", 24, 300), ("rebuild", 8, 100), ("finishing", 8, 80), ("handover", 4, 60), ("large", 2, 12)],
     "C20": [("shocked", 10, 100), ("shortage", 6, 80), ("crash", 8, 80), ("multi", 6, 80), ("eventfree", 4, 60), ("excess", 8, 40),
             ("earlydt", 8, 60), ("finishing", 4, 40), ("blackout", 6, 60), ("starve", 6, 40), ("sudden", 4, 40), ("fastrebuild", 5, 40), ("large", 2, 12)],
     "C01": [("eventfree", 40, 400)],
@@ -123,10 +123,10 @@ STREAMS = {
     "C13": [("units", 22, 200), ("finishing", 6, 60)],
     "C18": [("shocked", 12, 120), ("shortage", 6, 60), ("eventfree", 6, 60)],
     "C03": [("shortage", 16, 300), ("shocked", 10, 200), ("multi", 6, 80), ("finishing", 8, 80), ("starve", 6, 40), ("large", 2, 12)],
-    "C04": [("shocked", 20, 300), ("shortage", 12, 200), ("multi", 8, 100), ("rebuild", 6, 80), ("finishing", 8, 80), ("large", 2, 12)],
+    "C04": [("shocked", 16, 300), ("shortage", 10, 200), ("tinyind", 6, 60), ("multi", 8, 100), ("rebuild", 6, 80), ("finishing", 8, 80), ("large", 2, 12)],
     "C05": [("shocked", 10, 200), ("shortage", 8, 150), ("crash", 8, 150), ("starve", 8, 60), ("mild", 6, 100), ("sudden", 8, 80), ("large", 2, 12)],
     "C06": [("shocked", 16, 300), ("shortage", 12, 200), ("mild", 14, 200), ("blackout", 4, 40), ("large", 2, 12)],
-    "C07": [("shocked", 30, 400), ("excess", 10, 100), ("large", 2, 12)],
+    "C07": [("shocked", 26, 400), ("excess", 10, 100), ("handover", 8, 80), ("large", 2, 12)],
     "C14": [("shocked", 20, 300), ("shortage", 16, 200), ("earlydt", 10, 100), ("large", 2, 12)],
 }
 
@@ -166,7 +166,7 @@ REPORTED = {"C01": ["production_realised", "overproduction", "final_demand_unmet
 RUN_ORACLES = {"C01": ["c01"], "C05": ["c05_run"], "C07": ["c07_capital"], "C08": ["c08_init"], "C11": ["c11_run"]}
 INIT_OBLIGATIONS = {"C01": ["mkparams"], "C02": ["mkparams"], "C03": ["mkparams"], "C06": ["mkparams"], "C07": ["mkparams", "trackerinit"], "C08": ["trackerinit"], "C13": ["trackerinit"], "C18": ["mkparams"]}
 PAIRED = {"C01": ["long_loop_c01", "table_reuse"], "C05": ["c05_loop", "long_loop_c05"], "C10": ["c10_prefix", "long_loop", "c11_order_c10"], "C08": ["event_reuse"],
-          "C09": ["event_reuse_c09"], "C11": ["c11_order", "long_loop_c11", "event_reuse_c11"], "C13": ["c13_units"], "C18": ["c18_variants", "c18_orders"],
+          "C09": ["event_reuse_c09"], "C20": ["c05_loop_c20"], "C11": ["c11_order", "long_loop_c11", "event_reuse_c11"], "C13": ["c13_units"], "C18": ["c18_variants", "c18_orders"],
           "C19": ["c19_shift", "c19_late"], "C17": ["c17_determinism"]}
 
 # what a property says about a recorded quantity relies on the record being written under its own name's guard, after its
